@@ -35,6 +35,7 @@ func (c16) Info(tier string) fw.Info {
 			fmt.Sprintf("Exits variant (1 history in 5, plus one fixed history per operand position that calls every member with every pooled argument): functions that are left from an operand position while other operands wait on the stack - %d positions (right operand of infix operators one and three deep and in a condition; right-hand side of = and of the compound operators for a local, a global, a field, an element, a nested place and places in globals; the index of a read, of an assignment target and of both; first / middle / last / nested argument of a named call, argument of a called value, of a method, next to a function literal; element of a list literal, field of an object literal, end of a range; condition of an if and control value of a match inside an operand; inside a try and next to a finished loop inside an operand) x 6 ways of leaving (return; continue and break of a while, a for and a loop loop with 0-2000 iterations; throw caught by a handler around the statement; the returning function itself called in operand position) x 3 syntaxes of the leaving operand (block, if-else, match); ", len(exitPositions)) +
 			fmt.Sprintf("Hosts: 1 history in 5 (and half of the family histories below) is driven through the repository's own testing host (homescript.TestingVmExecutor + TestingVmScopeAdditions) instead of the harness host; %d family histories use the out variant (functions that write to the host: print / println / debug with no, one, several arguments and empty texts; two writes per call, writes in a loop, in a try left by throw, before a return out of a loop, before an uncaught throw, by one thread and by two threads side by side; texts from arguments and from globals earlier calls wrote) and / or the single variant (two singletons whose values are the compiler's defaults, read and changed through extraction parameters and directly: list push, compound assignment, option, nested object, whole-field replacement); 2 in 3 of them contain 1-3 host operations @newvm: the host builds a NEW VM from the SAME compile output (also right after a failed VM has been probed), which must start from the initial state (the model is reset); six fixed histories call every function of the two families with every pooled text on both hosts and rebuild the VM after changing every global and singleton. ", familyCount(tier)) +
 			"After every call that was executed and ended as the model says, the text the call wrote to the host must be the text the function writes (either order for two threads), and what the host had collected before must still be there; NewVM writes nothing. The host's own lock (the print mutex of the testing host) must be free after NewVM and after every call, and around every single write (writes of the cores are passed on one at a time; a write that finds or leaves the mutex locked is recorded, NO further write is passed on - it would block forever - and the history ends with that verdict). " +
+			"Fresh variant (1 history in 5 of the others, plus four fixed histories - both hosts, both initial states - that make every call three times in a row, then build a new VM from the same compile output and repeat everything): values that belong to one call. Literals (list, empty list, object, any-object new { ? }, nested list, option around a list, literals evaluated once per loop iteration, a literal stored in a global) are changed in place by the function that evaluates them (push, element / field assignment, set) and must be new values at every evaluation - next call, next iteration, next VM; parameters of type [int], [[int]], { n: int, xs: [int] }, ?[int], ?{ .. }, ?[?int] are changed in place by the callee, the host passes the bare T, Some(T) and none for ?T from a pool of three payloads per type. Half of all histories are run by a host that keeps the composite values it has passed and passes the very same value again when an equal argument is needed (reuse); after every call of every history the values the host passed must still be what the host passed (a call that changes them leaves something behind that changes the result of a later call given the same value). " +
 			"Every call is compared with a sequential model of the service (globals state machine in Go): a completed call must return exactly the model's value with the declared dynamic type (nil/null for null functions), a failing call must fail with the model's fatal kind (and thrown message). " +
 			"After every completed call: every core started during the call (counted at verifYield(\"spawn\")) has signalled its exit before the call returned, their number is 1 + the number of threads the function starts, and the core of the invoked function exited with operand stack = exactly the return value (null for null functions), no call frames, memory pointer 0, no exception handlers. After every call: core list empty, Cores.Lock acquirable by TryLock (a leaked lock is reported and NO further call is attempted, so no worker ever blocks), no goroutine left inside runtime.(*Core).Run (a goroutine blocked in a channel send after the call returned can never proceed). " +
 			"AFTER A FAILED CALL the VM must answer later calls with a failure instead of blocking: Wait() cancels the shared context on failure; whenever the context is observed cancelled before a call (ctx.Err() != nil), ANY failure answer is accepted and a regular result is a violation (the call must not execute: the model state is not advanced); histories with a real cancel function end with one arbitrary call, one call of a few instructions (less than one 50-instruction scheduling cycle) and one of thousands. With a no-op cancel function the context stays live, later calls really execute and must agree with the model (which keeps the partial effects of the failed call). Blocking (lock precondition) and a host crash are rejected in both modes. " +
@@ -138,7 +139,15 @@ func (c16) Cases(tier string, seed uint64) []fw.Case {
 			o.variant.Exits = true
 			o.favour = strings.Join(exitFns, ",")
 		}
+		// the fresh variant and the host that keeps its payloads are decided by a stream of their own
+		z := fw.NewRng(root0 ^ (uint64(i)+1)*0xd6e8feb86659fd93)
+		if !o.variant.Spawn && !o.variant.Relay && !o.variant.Exits && z.Chance(1, 5) {
+			o.variant.Fresh = true
+			o.favour = strings.Join(freshFns, ",")
+		}
+		reuse := z.Chance(1, 2)
 		pl, ff := genHistory(r, o)
+		pl.Reuse = reuse
 		pl.SkipLockAfterFailure = lockOpen
 		pl.Reap = o.variant.Relay && r.Bool()
 		// the host is decided by a stream of its own (the invocations stay what they were): 1 history in 5 is
@@ -205,6 +214,17 @@ func (c16) Cases(tier string, seed uint64) []fw.Case {
 				pl := singleSweep(hk, init)
 				mk("fs:single:"+name+":"+init, "family-sweep", pl, indexOfFn(pl, "st_fail"))
 			}
+		}
+	}
+
+	// ---- values that belong to one call: every function of the fresh family, every payload in every form,
+	// each call three times with the host's same values, on both hosts, then on a new VM (service4.go) ----
+	for _, hk := range []string{"", hostTesting} {
+		name := map[string]string{"": "harness", hostTesting: hostTesting}[hk]
+		for _, init := range []string{"zero", "rich"} {
+			pl := freshSweep(hk, init)
+			pl.SkipLockAfterFailure = lockOpen
+			mk("fr:"+name+":"+init, "fresh-sweep", pl, -1)
 		}
 	}
 
@@ -324,6 +344,12 @@ func (c16) Run(c fw.Case) fw.Result {
 	}
 	if pl.Variant.Single {
 		h.cover["variant:single"] = true
+	}
+	if pl.Variant.Fresh {
+		h.cover["variant:fresh"] = true
+	}
+	if pl.Reuse {
+		h.cover["host:passes-kept-values-again"] = true
 	}
 	if pl.Reap {
 		h.cover["schedule:reap-before-spawn-and-exit"] = true
